@@ -398,7 +398,13 @@ def truth_of(expr, env):
             return (bool(expr.value), ('INT', min(expr.value, 2)))      # 2 stands for "two or more"
         return (bool(expr.value), None)
     if isinstance(expr, ast.Name):
-        return env.get(expr.id, (None, None))
+        v = env.get(expr.id, (None, None))
+        if v[0] is None and isinstance(v[1], tuple) and v[1] and v[1][0] == 'DEFER':
+            # a boolean combination of names that were unknown when it was assigned: evaluated against what is known now
+            # (the entry is dropped as soon as one of its operands is re-bound)
+            env2 = {k: w for k, w in env.items() if k != expr.id}
+            return (truth_of(_DEFERRED[v[1][1]], env2)[0], v[1])
+        return v
     if isinstance(expr, ast.Attribute):
         k = path_key(expr)
         if k is not None and k in env:
@@ -511,7 +517,56 @@ def path_key(e):
     return None
 
 
+_DEFERRED = {}      # canonical text of a deferred expression -> its syntax tree (state keys must compare by value)
+
+
+def _invalidate(name, env):
+    """`name` is about to be re-bound: deferred expressions over it are settled with what is known now, or dropped"""
+    for k in [k for k, w in env.items() if isinstance(w[1], tuple) and w[1] and w[1][0] == 'DEFER' and name in w[1][2]]:
+        w = env[k]
+        t = w[0] if w[0] is not None else truth_of(_DEFERRED[w[1][1]], {a: b for a, b in env.items() if a != k})[0]
+        if t is None:
+            env.pop(k, None)
+        else:
+            env[k] = (t, None)
+
+
+def _deferred(value, env, target_name):
+    """(None, ('DEFER', expr, operand names)) for `a or b`, `a and b`, `not a`, comparisons of names with constants -
+    with the operands that are known now (the target's own old value included) frozen into the expression"""
+    if not isinstance(value, (ast.BoolOp, ast.UnaryOp, ast.Compare)):
+        return None
+    from .loader import clone
+
+    class Freeze(ast.NodeTransformer):
+        def __init__(self):
+            self.deps = set()
+            self.bad = False
+
+        def visit_Name(self, node):
+            t = truth_of(node, env)[0]
+            if t is not None:
+                return ast.copy_location(ast.Constant(value=t), node)
+            if node.id == target_name:
+                self.bad = True
+            self.deps.add(node.id)
+            return node
+
+        def visit_Call(self, node):
+            self.bad = True
+            return node
+    fz = Freeze()
+    e2 = fz.visit(clone(value))
+    if fz.bad or not fz.deps:
+        return None
+    key = ast.dump(e2)
+    _DEFERRED[key] = e2
+    return (None, ('DEFER', key, frozenset(fz.deps)))
+
+
 def _bind(target, val, env):
+    if isinstance(target, ast.Name):
+        _invalidate(target.id, env)
     if isinstance(target, ast.Attribute):
         k = path_key(target)
         if k is not None:
@@ -550,6 +605,12 @@ def truth_transfer(node, env):
     if node.kind == 'stmt':
         if isinstance(a, ast.Assign):
             val = truth_of(a.value, env)
+            if val[0] is None and val[1] is None and len(a.targets) == 1 and isinstance(a.targets[0], ast.Name):
+                d = _deferred(a.value, env, a.targets[0].id)
+                if d is not None:
+                    _invalidate(a.targets[0].id, env)
+                    env[a.targets[0].id] = d
+                    return env
             for t in a.targets:
                 _bind(t, val, env)
         elif isinstance(a, ast.AnnAssign) and a.value is not None:
@@ -581,6 +642,7 @@ def truth_transfer(node, env):
         for n in ast.walk(a.target):
             if isinstance(n, ast.Name):
                 env.pop(n.id, None)
+                _invalidate(n.id, env)
                 if objs:
                     env[n.id] = (None, 'OBJ')       # an object of the model (never None); truthiness unknown
     elif node.kind == 'except':
@@ -669,8 +731,13 @@ def _refine(test, label, env):
         return env
     if isinstance(t, ast.Name):
         old = env.get(t.id, (None, None))
-        if old[0] is None:
-            env[t.id] = (want, old[1])
+        if truth_of(t, env)[0] is None:
+            mark = old[1] if not (isinstance(old[1], tuple) and old[1] and old[1][0] == 'DEFER') else None
+            if isinstance(old[1], tuple) and old[1] and old[1][0] == 'DEFER':
+                # the branch also tells something about the operands of the deferred expression
+                env[t.id] = (want, None)
+                return _refine(_DEFERRED[old[1][1]], want, env)
+            env[t.id] = (want, mark)
     elif isinstance(t, ast.Compare) and len(t.ops) == 1 and isinstance(t.left, ast.Call) and \
             isinstance(t.left.func, ast.Name) and t.left.func.id == 'len' and len(t.left.args) == 1 and \
             isinstance(t.left.args[0], ast.Name) and isinstance(t.comparators[0], ast.Constant) and \
